@@ -4,4 +4,6 @@ HARNESSES = [
     ("rbtree", ["rbtree.cxx"], "plain"),
     ("specs", ["specs.cxx"], "plain"),
     ("subst", ["subst.cxx"], "plain"),
+    ("strings", ["strings.cxx"], "plain"),
+    ("strings", ["strings.cxx"], "asan"),
 ]
